@@ -70,7 +70,7 @@ def include_flags():
 
 
 def cpp_defs(obl):
-    d = ["-D_GNU_SOURCE", "-DHAVE_CONFIG_H", "-D" + GUARD + "=1",
+    d = ["-D_GNU_SOURCE", "-DHAVE_CONFIG_H", "-D" + GUARD + "=1", "-D__NO_CTYPE=1",
          "-DWITH_GZIP", "-DWITH_XZ", "-DWITH_ZSTD", "-DWITH_BZIP2",
          "-DWITH_LZ4"]
     for k, v in (obl.get("defines") or {}).items():
